@@ -142,6 +142,7 @@ func main() {
 	fs := flag.NewFlagSet(cmd, flag.ExitOnError)
 	repo := fs.String("repo", "/repo", "repository root")
 	specs := fs.String("specs", "/verif/specs", "spec directory")
+	cleanup := func() {}
 	work := fs.String("work", "", "scratch directory for SMT files")
 	timeout := fs.Int("timeout", 10000, "per-obligation solver timeout (ms)")
 	keep := fs.Bool("keep", false, "keep SMT files")
@@ -159,7 +160,7 @@ func main() {
 		}
 		*work = d
 		if !*keep {
-			defer os.RemoveAll(d)
+			cleanup = func() { os.RemoveAll(d) }
 		}
 	}
 	os.MkdirAll(*work, 0o755)
@@ -167,17 +168,21 @@ func main() {
 
 	switch cmd {
 	case "prop":
-		os.Exit(propMain(fs.Args(), o, *tier))
+		code := propMain(fs.Args(), o, *tier)
+		cleanup()
+		os.Exit(code)
 	}
 
 	P, err := LoadProgram(*repo, []string{"./..."})
 	if err != nil {
 		fmt.Fprintln(os.Stderr, "load:", err)
+		cleanup()
 		os.Exit(2)
 	}
 	S, err := LoadSpecs(*repo, *specs)
 	if err != nil {
 		fmt.Fprintln(os.Stderr, "specs:", err)
+		cleanup()
 		os.Exit(2)
 	}
 	re := regexp.MustCompile(*match)
@@ -243,15 +248,17 @@ func main() {
 		}
 		if bad > 0 {
 			fmt.Printf("%d obligations not discharged\n", bad)
+			cleanup()
 			os.Exit(1)
 		}
 	default:
 		fmt.Fprintln(os.Stderr, "unknown command", cmd)
+		cleanup()
 		os.Exit(2)
 	}
 	_ = strings.Join
+	cleanup()
 }
-
 
 func init() {
 	debugMods = func(P *Program, S *Specs, E *Effects, re string) {
